@@ -2,8 +2,9 @@
 """sensitivity self-test: break a property on purpose in a scratch copy of /repo
 and require the check to report a violation within its quick budget.
 
-usage: sensitivity.py [ID ...] [--runs N] [--list]
-Each mutant is (property, name, file, old text, new text).  The scratch copy
+usage: sensitivity.py [ID ...] [mutant names ...] [--runs=N] [--tier=quick|thorough] [--list]
+Each mutant is (property, name, file, old text, new text); the changes written by
+sub-agents (seeded/<name>/patch.diff, names 'seeded/<name>') are run as well.  The scratch copy
 lives under /dev/shm and is removed afterwards; /repo is never touched.
 """
 import os
@@ -453,6 +454,17 @@ mutant('C06', 'enum-members-by-name-only', 'frappy/datatypes.py',
        "        return {'type': 'enum', 'members': dict((m.name, i) for i, m in enumerate(self._enum.members))}")
 
 
+def seeded():
+    """the changes written by sub-agents (seeded/<name>/patch.diff): (property, name, patch file)"""
+    import glob
+    import json
+    res = []
+    for mf in sorted(glob.glob(os.path.join(VERIF, 'seeded', '*', 'meta.json'))):
+        meta = json.load(open(mf, encoding='utf-8'))
+        res.append((meta['property'], 'seeded/' + meta['name'], os.path.join(os.path.dirname(mf), 'patch.diff')))
+    return res
+
+
 def run_mutant(prop, name, file, old, new, runs, extra):
     d = tempfile.mkdtemp(prefix='frappy-mut-', dir='/dev/shm')
     try:
@@ -460,11 +472,16 @@ def run_mutant(prop, name, file, old, new, runs, extra):
             if os.path.isdir(os.path.join('/repo', sub)):
                 shutil.copytree(os.path.join('/repo', sub), os.path.join(d, sub),
                                 ignore=shutil.ignore_patterns('__pycache__'))
-        path = os.path.join(d, file)
-        src = open(path, encoding='utf-8').read()
-        if src.count(old) != 1:
-            return 'ANCHOR-MISSING' if old not in src else 'ANCHOR-AMBIGUOUS', ''
-        open(path, 'w', encoding='utf-8').write(src.replace(old, new))
+        if old is None:     # a patch file
+            cp = subprocess.run(['patch', '-p1', '-s', '-d', d, '-i', file], capture_output=True, text=True, check=False)
+            if cp.returncode:
+                return 'PATCH-FAILED', cp.stdout[-200:]
+        else:
+            path = os.path.join(d, file)
+            src = open(path, encoding='utf-8').read()
+            if src.count(old) != 1:
+                return 'ANCHOR-MISSING' if old not in src else 'ANCHOR-AMBIGUOUS', ''
+            open(path, 'w', encoding='utf-8').write(src.replace(old, new))
         env = dict(os.environ, FRAPPY_VERIF_REPO=d)
         # never touch the committed evidence / replays: run in a scratch copy of /verif
         vd = os.path.join(d, 'verif')
@@ -492,7 +509,7 @@ def main():
     wanted = {a.upper() for a in args if a[0] in 'cC' and a[1:].isdigit()}
     names = {a for a in args if a.upper() not in wanted}
     missed = 0
-    for prop, name, file, old, new in M:
+    for prop, name, file, old, new in M + [(p, n, f, None, None) for p, n, f in seeded()]:
         if wanted and prop not in wanted:
             continue
         if names and name not in names:
